@@ -260,7 +260,7 @@ func (i *Iterator[T]) ReadOne(ctx context.Context) (out T, err error) {
 func (i *Iterator[T]) Filter(check func(T) bool) *Iterator[T] {
 	return Producer[T](func(ctx context.Context) (out T, _ error) {
 		for {
-			item, err := i.ReadOne(ctx)
+			item, err := i.readOrFail(ctx)
 			if err != nil {
 				return out, err
 			}
@@ -269,7 +269,7 @@ func (i *Iterator[T]) Filter(check func(T) bool) *Iterator[T] {
 				return item, nil
 			}
 		}
-	}).IteratorWithHook(func(si *Iterator[T]) { si.AddError(i.Close()) })
+	}).Iterator()
 }
 
 // Any, as a special case of Transform converts an iterator of any
